@@ -164,7 +164,7 @@ def families(asm: dict) -> Tuple[Dict[Tuple[int, int], int], Dict[int, List[Tupl
     return fam_of, members
 
 
-CHOP_KINDS = ["count", "count_c2c", "count_total", "start_c2c", "count_start", "count_end", "multi"]
+CHOP_KINDS = ["count", "count_c2c", "count_total", "start_c2c", "count_start", "count_end", "multi", "multi_equal"]
 
 
 def gen_chop(rng: random.Random, kinds=CHOP_KINDS, count: Optional[int] = None) -> List[dict]:
@@ -184,6 +184,13 @@ def gen_chop(rng: random.Random, kinds=CHOP_KINDS, count: Optional[int] = None) 
         return [{"count": n, "start_size": rng.choice([0.03, 0.05, 0.07]), "preserve": pres}]
     if kind == "count_end":
         return [{"count": n, "end_size": rng.choice([0.03, 0.05, 0.07]), "preserve": pres}]
+    if kind == "multi_equal":
+        # two or three identical divisions (equal as dataclasses, different objects)
+        k = rng.choice([2, 3]) if n >= 6 else 2
+        one = {"length_ratio": 1 / k, "count": max(2, n // k)}
+        if rng.random() < 0.5:
+            one["total_expansion"] = rng.choice([1.0, 2.0])
+        return [dict(one) for _ in range(k)]
     r = rng.choice([0.3, 0.4, 0.5])
     n1 = max(2, n // 2)
     return [
